@@ -783,4 +783,280 @@ theorem roundTicks_bounds (q : Rat) (hq : 0 ≤ q) (p : Nat) :
     rw [he, e]
     exact hb.2
 
+/-! ### ISO 8601 renderings -/
+
+/-- `number letter` or nothing -/
+def og (U : Char) : Option NumText → List Char
+  | none => []
+  | some t => t.text ++ [U]
+
+def OWF (x : Option NumText) : Prop := ∀ t, x = some t → t.WF
+
+/-- the group with letter `U` does not start here -/
+def IBlocked (U : Char) (tail : List Char) : Prop :=
+  optGroup false (· == U) tail = (none, tail)
+
+theorem parseNum_none (cs : List Char) (h : headSat (fun c => !c.isDigit) cs) : parseNum cs = none := by
+  cases cs with
+  | nil => simp [parseNum, takeDigits]
+  | cons c r => simp [headSat] at h; simp [parseNum, takeDigits, h]
+
+theorem iblocked_head (U : Char) (tail : List Char) (h : headSat (fun c => !c.isDigit) tail) :
+    IBlocked U tail := by
+  simp [IBlocked, optGroup, parseNum_none tail h]
+
+theorem iblocked_og (U V : Char) (hV : numEnd V = true) (hne : (V == U) = false)
+    (x : Option NumText) (wf : OWF x) (tail : List Char) (hb : IBlocked U tail) :
+    IBlocked U (og V x ++ tail) := by
+  cases x with
+  | none => simpa [og] using hb
+  | some t =>
+    unfold IBlocked
+    have e : og V (some t) ++ tail = t.text ++ (V :: tail) := by simp [og]
+    rw [e, optGroup_text false _ t (wf t rfl) _ (by simpa [headSat] using hV)]
+    simp [hne]
+
+theorem isoStage (U : Char) (hU : numEnd U = true) (x : Option NumText) (wf : OWF x)
+    (tail : List Char) (hb : IBlocked U tail) :
+    optGroup false (· == U) (og U x ++ tail) = (x.map (·.num), tail) := by
+  cases x with
+  | none => simpa [og, IBlocked] using hb
+  | some t =>
+    have e : og U (some t) ++ tail = t.text ++ (U :: tail) := by simp [og]
+    rw [e, optGroup_text false _ t (wf t rfl) _ (by simpa [headSat] using hU)]
+    simp
+
+structure IsoR where
+  pre : List Char := []
+  y : Option NumText := none
+  mo : Option NumText := none
+  d : Option NumText := none
+  t : Bool := false                 -- the letter `T` is there
+  h : Option NumText := none
+  m : Option NumText := none
+  s : Option NumText := none
+  post : List Char := []
+
+namespace IsoR
+
+def timeText (r : IsoR) : List Char := og 'H' r.h ++ (og 'M' r.m ++ (og 'S' r.s ++ r.post))
+
+def rest (r : IsoR) : List Char := if r.t then 'T' :: r.timeText else r.post
+
+def text (r : IsoR) : List Char :=
+  r.pre ++ 'P' :: (og 'Y' r.y ++ (og 'M' r.mo ++ (og 'D' r.d ++ r.rest)))
+
+def WF (r : IsoR) : Prop :=
+  allWs r.pre ∧ allWs r.post ∧ OWF r.y ∧ OWF r.mo ∧ OWF r.d ∧ OWF r.h ∧ OWF r.m ∧ OWF r.s ∧
+    (r.t = false → r.h = none ∧ r.m = none ∧ r.s = none)
+
+def groups (r : IsoR) : Groups :=
+  { y := r.y.map (·.num), mo := r.mo.map (·.num), d := r.d.map (·.num),
+    h := r.h.map (·.num), m := r.m.map (·.num), s := r.s.map (·.num) }
+
+/-- the numbers from the smallest unit -/
+def nums (r : IsoR) : List (Option NumText) := [r.s, r.m, r.h, r.d, r.mo, r.y]
+
+def NonEmpty (r : IsoR) : Prop := r.nums.any (·.isSome) = true
+
+end IsoR
+
+theorem headSat_ws_nodigit (w : List Char) (hw : allWs w) : headSat (fun c => !c.isDigit) w := by
+  cases w with
+  | nil => trivial
+  | cons c w => simp [headSat]; exact isWs_not_digit (hw c (by simp))
+
+theorem isoTime_text (r : IsoR) (wf : r.WF) (y mo d : Option Num) :
+    isoTime y mo d r.timeText =
+      some { y := y, mo := mo, d := d, h := r.h.map (·.num), m := r.m.map (·.num), s := r.s.map (·.num) } := by
+  obtain ⟨_, wpost, _, _, _, wh, wm, wsec, _⟩ := wf
+  have bP : ∀ U, IBlocked U r.post := fun U => iblocked_head U _ (headSat_ws_nodigit _ wpost)
+  have eH := isoStage 'H' (by decide) r.h wh (og 'M' r.m ++ (og 'S' r.s ++ r.post))
+    (iblocked_og 'H' 'M' (by decide) (by decide) r.m wm _
+      (iblocked_og 'H' 'S' (by decide) (by decide) r.s wsec _ (bP 'H')))
+  have eM := isoStage 'M' (by decide) r.m wm (og 'S' r.s ++ r.post)
+    (iblocked_og 'M' 'S' (by decide) (by decide) r.s wsec _ (bP 'M'))
+  have eS := isoStage 'S' (by decide) r.s wsec r.post (bP 'S')
+  unfold isoTime IsoR.timeText
+  simp only [eH, eM, eS, skipWs_all_ws _ wpost, List.isEmpty_nil, ↓reduceIte]
+
+theorem matchIso_text (r : IsoR) (wf : r.WF) : matchIso r.text = some r.groups := by
+  have wf' := wf
+  obtain ⟨wpre, wpost, wy, wmo, wd, wh, wm, wsec, wt⟩ := wf
+  have hrest : headSat (fun c => !c.isDigit) r.rest := by
+    unfold IsoR.rest
+    cases r.t with
+    | true => simp [headSat]
+    | false => simpa using headSat_ws_nodigit _ wpost
+  have bR : ∀ U, IBlocked U r.rest := fun U => iblocked_head U _ hrest
+  have eY := isoStage 'Y' (by decide) r.y wy (og 'M' r.mo ++ (og 'D' r.d ++ r.rest))
+    (iblocked_og 'Y' 'M' (by decide) (by decide) r.mo wmo _
+      (iblocked_og 'Y' 'D' (by decide) (by decide) r.d wd _ (bR 'Y')))
+  have eMo := isoStage 'M' (by decide) r.mo wmo (og 'D' r.d ++ r.rest)
+    (iblocked_og 'M' 'D' (by decide) (by decide) r.d wd _ (bR 'M'))
+  have eD := isoStage 'D' (by decide) r.d wd r.rest (bR 'D')
+  unfold matchIso IsoR.text
+  rw [skipWs_append_ws _ _ wpre, skipWs_cons_of_not_ws _ (by decide)]
+  simp only [beq_self_eq_true, ↓reduceIte]
+  unfold isoAfterP
+  simp only [eY, eMo, eD]
+  unfold IsoR.rest
+  cases ht : r.t with
+  | true =>
+    simp only [↓reduceIte, beq_self_eq_true]
+    rw [isoTime_text r wf']
+    rfl
+  | false =>
+    obtain ⟨hh, hm, hs⟩ := wt ht
+    simp only [Bool.false_eq_true, ↓reduceIte]
+    cases hp : r.post with
+    | nil => simp [IsoR.groups, hh, hm, hs]
+    | cons c w =>
+      have hc : isWs c = true := wpost c (by simp [hp])
+      have hcT : (c == 'T') = false := by
+        cases h : (c == 'T') with
+        | false => rfl
+        | true =>
+          have : c = 'T' := by simpa using h
+          subst this
+          exact absurd hc (by decide)
+      have hall : skipWs (c :: w) = [] := skipWs_all_ws _ (by rw [← hp]; exact wpost)
+      simp [hcT, hall, IsoR.groups, hh, hm, hs]
+
+theorem matchTrad_P (pre rest : List Char) (hpre : allWs pre) : matchTrad (pre ++ 'P' :: rest) = none := by
+  have hn : parseNum ('P' :: rest) = none := parseNum_none _ (by simp [headSat])
+  have hs : skipWs ('P' :: rest) = 'P' :: rest := skipWs_cons_of_not_ws _ (by decide)
+  unfold matchTrad
+  rw [skipWs_append_ws _ _ hpre, hs]
+  simp [optGroup, optGroupLast, hn, hs]
+
+theorem convert_iso_sum (r : IsoR) (wf : r.WF) (hf : fracSmallestOnly r.nums = true)
+    (hcal : ntVal r.y = 0 ∧ ntVal r.mo = 0) (hne : r.NonEmpty) :
+    convert r.text = .ok (scaledSum r.groups.scaled) := by
+  unfold convert
+  have hT : matchTrad r.text = none := matchTrad_P _ _ wf.1
+  rw [hT, matchIso_text r wf]
+  simp only
+  obtain ⟨pre, y, mo, d, t, h, m, s, post⟩ := r
+  have ev : ∀ p : Option NumText, optVal (p.map (·.num)) = ntVal p := by
+    intro p; cases p <;> rfl
+  apply evalGroups_ok
+  · simp only [IsoR.groups, Groups.scaled, calOK, ev]
+    simp at hcal
+    simp [hcal.1, hcal.2]
+  · cases y <;> cases mo <;> cases d <;> cases h <;> cases m <;> cases s <;>
+      simp_all [IsoR.groups, Groups.scaled, fracOK, allNoFrac, noFrac, IsoR.nums,
+        fracSmallestOnly, NumText.num]
+  · cases y <;> cases mo <;> cases d <;> cases h <;> cases m <;> cases s <;>
+      simp_all [IsoR.groups, Groups.scaled, allAbsent, IsoR.NonEmpty, IsoR.nums]
+
+theorem scaledSum_iso (r : IsoR) :
+    scaledSum r.groups.scaled =
+      86400 * ntVal r.d + 3600 * ntVal r.h + 60 * ntVal r.m + ntVal r.s := by
+  obtain ⟨pre, y, mo, d, t, h, m, s, post⟩ := r
+  have e1 : ((Gen.secPerMin : Nat) : Rat) = 60 := by decide
+  have e2 : ((Gen.secPerHour : Nat) : Rat) = 3600 := by decide
+  have e3 : ((Gen.secPerDay : Nat) : Rat) = 86400 := by decide
+  have ev : ∀ p : Option NumText, optVal (p.map (·.num)) = ntVal p := by
+    intro p; cases p <;> rfl
+  simp only [IsoR.groups, Groups.scaled, scaledSum, e1, e2, e3, ev]
+  grind
+
+theorem convert_iso_eval (r : IsoR) (wf : r.WF) : convert r.text = evalGroups r.groups := by
+  have hT : matchTrad r.text = none := matchTrad_P _ _ wf.1
+  unfold convert
+  rw [hT, matchIso_text r wf]
+
+theorem convert_trad_eval (r : TradR) (wf : r.WF) : convert r.text = evalGroups r.groups := by
+  unfold convert
+  rw [matchTrad_text r wf]
+
+/-! ### what the evaluation loop refuses -/
+
+/-- a successful loop means: years/months zero, fraction only in the smallest present unit -/
+theorem evalLoop_ok_imp (gs : List (Option Num × Option Nat)) (acc acc' : Acc)
+    (h : evalLoop acc gs = .ok acc') :
+    calOK gs = true ∧ (acc.smallest = true → fracOK gs = true) ∧
+      (acc.smallest = false → allNoFrac gs = true) := by
+  induction gs generalizing acc with
+  | nil => simp [calOK, fracOK, allNoFrac]
+  | cons gk gs ih =>
+    obtain ⟨g, k⟩ := gk
+    cases g with
+    | none =>
+      simp only [evalLoop, addGroup] at h
+      obtain ⟨h1, h2, h3⟩ := ih acc h
+      refine ⟨?_, ?_, ?_⟩
+      · cases k <;> simp [calOK, optVal, h1]
+      · intro hs; simpa [fracOK] using h2 hs
+      · intro hs; simpa [allNoFrac, noFrac] using h3 hs
+    | some n =>
+      simp only [evalLoop, addGroup] at h
+      cases hfr : (n.frac && !acc.smallest) with
+      | true => simp [hfr] at h
+      | false =>
+        simp only [hfr, Bool.false_eq_true, ↓reduceIte] at h
+        cases hz : (n.val == 0) with
+        | true =>
+          simp only [hz, ↓reduceIte] at h
+          obtain ⟨h1, _, h3⟩ := ih _ h
+          have hz' : n.val = 0 := by simpa using hz
+          refine ⟨?_, ?_, ?_⟩
+          · cases k <;> simp [calOK, optVal, h1, hz']
+          · intro _; simpa [fracOK] using h3 rfl
+          · intro hs
+            have : n.frac = false := by simpa [hs] using hfr
+            simp [allNoFrac, noFrac, this, h3 rfl]
+        | false =>
+          simp only [hz, Bool.false_eq_true, ↓reduceIte] at h
+          cases k with
+          | none => simp at h
+          | some k =>
+            simp only at h
+            obtain ⟨h1, _, h3⟩ := ih _ h
+            refine ⟨by simpa [calOK] using h1, ?_, ?_⟩
+            · intro _; simpa [fracOK] using h3 rfl
+            · intro hs
+              have : n.frac = false := by simpa [hs] using hfr
+              simp [allNoFrac, noFrac, this, h3 rfl]
+
+theorem evalGroups_ok_imp (g : Groups) (v : Rat) (h : evalGroups g = .ok v) :
+    calOK g.scaled = true ∧ fracOK g.scaled = true := by
+  unfold evalGroups at h
+  cases he : evalLoop ⟨0, true⟩ g.scaled with
+  | error e => simp [he] at h
+  | ok acc =>
+    obtain ⟨h1, h2, _⟩ := evalLoop_ok_imp _ _ _ he
+    exact ⟨h1, h2 rfl⟩
+
+theorem except_error_of_not_ok {ε α : Type} (x : Except ε α) (h : ∀ v, x ≠ .ok v) : ∃ e, x = .error e := by
+  cases x with
+  | error e => exact ⟨e, rfl⟩
+  | ok v => exact absurd rfl (h v)
+
+/-- without years/months the only refusals of the loop are the misplaced fraction and "empty" -/
+theorem evalLoop_error_fraction (gs : List (Option Num × Option Nat)) (acc : Acc) (e : Err)
+    (hsc : ∀ x ∈ gs, (x.1.isSome = true → x.2.isSome = true)) (h : evalLoop acc gs = .error e) :
+    e = .fraction := by
+  induction gs generalizing acc with
+  | nil => simp [evalLoop] at h
+  | cons gk gs ih =>
+    obtain ⟨g, k⟩ := gk
+    have hsc' : ∀ x ∈ gs, (x.1.isSome = true → x.2.isSome = true) := fun x hx => hsc x (by simp [hx])
+    cases g with
+    | none => simp only [evalLoop, addGroup] at h; exact ih acc hsc' h
+    | some n =>
+      have hk := hsc (some n, k) (by simp) rfl
+      cases k with
+      | none => simp at hk
+      | some k =>
+        simp only [evalLoop, addGroup] at h
+        cases hfr : (n.frac && !acc.smallest) with
+        | true => simp [hfr] at h; exact h.symm
+        | false =>
+          simp only [hfr, Bool.false_eq_true, ↓reduceIte] at h
+          cases hz : (n.val == 0) with
+          | true => simp only [hz, ↓reduceIte] at h; exact ih _ hsc' h
+          | false => simp only [hz, Bool.false_eq_true, ↓reduceIte] at h; exact ih _ hsc' h
+
 end Edzed.TimeUnits
